@@ -197,7 +197,13 @@ func (c *CrossingEdgeQuery) candidatesEdgeMap(a, b Point) EdgeMap {
 		// Typically this method is called many times, so it is worth checking
 		// whether the edge map is empty or already consists of a single entry for
 		// this shape, and skip clearing edge map in that case.
-		shape := c.index.Shape(0)
+		//
+		// The single shape need not have id 0: shape ids are never reused, so
+		// after a Remove the remaining shape can have any id.
+		var shape Shape
+		for _, s := range c.index.shapes {
+			shape = s
+		}
 
 		// Note that we leave the edge map non-empty even if there are no candidates
 		// (i.e., there is a single entry with an empty set of edges).
